@@ -35,7 +35,7 @@ def gen(rng, tier, kind=None, hp=None, nev=None):
     kind = kind or rng.pick(['sgd', 'adam', 'adamw'])
     hp = hp or hyper(rng, kind)
     npar = rng.randint(1, 3)
-    sizes = [rng.randint(1, 3) for _ in range(npar)]
+    sizes = [rng.pick([1, 2, 3, 4, 6]) for _ in range(npar)]
     thetas = [[rng.dyadic(-3, 3) for _ in range(s)] for s in sizes]
     rgs = [rng.chance(0.8) for _ in range(npar)]
     evs = []
@@ -51,7 +51,7 @@ def gen(rng, tier, kind=None, hp=None, nev=None):
             evs.append(('step',))
         else:
             evs.append(('rg', rng.randrange(npar), rng.chance(0.5)))
-    return {'opt': kind, 'hp': hp, 'thetas': thetas, 'rgs': rgs, 'evs': evs}
+    return {'opt': kind, 'hp': hp, 'thetas': thetas, 'rgs': rgs, 'evs': evs, 'seed_lay': rng.randrange(4)}
 
 
 def _ctor_line(c):
@@ -121,7 +121,20 @@ def cases(rng, tier):
 def _run(c, observe):
     sg = common.impl()
     from synapgrad import optim
-    ps = [sg.Tensor(np.array(t, dtype=np.float64), requires_grad=rg) for t, rg in zip(c['thetas'], c['rgs'])]
+    # parameters arrive in different memory layouts (a weight imported as `kernel.T`, a Fortran-ordered array, a column slice):
+    # an even-sized parameter is a (2, n/2) matrix stored column-major / as a transposed view / as a slice of a wider buffer.
+    # The model sees the values in row-major order of the logical matrix.
+    def param(t, k):
+        a = np.array(t, dtype=np.float64)
+        lay = (c.get('seed_lay', 0) + k) % 4
+        if len(t) % 2 == 0 and len(t) >= 2 and lay:
+            a = a.reshape(2, len(t) // 2)
+            if lay == 1: a = np.asfortranarray(a)
+            elif lay == 2: a = np.ascontiguousarray(a.T).T
+            else:
+                big = np.full((2, a.shape[1] + 2), 9.0); big[:, 1:-1] = a; a = big[:, 1:-1]
+        return a
+    ps = [sg.Tensor(param(t, k), requires_grad=rg) for k, (t, rg) in enumerate(zip(c['thetas'], c['rgs']))]
     hp = dict(c['hp'])
     cls = {'sgd': optim.SGD, 'adam': optim.Adam, 'adamw': optim.AdamW}[c['opt']]
     opt = cls(ps, **hp)
@@ -129,7 +142,7 @@ def _run(c, observe):
     observe('ctor', ps, ids)
     for e in c['evs']:
         if e[0] == 'bw':
-            terms = [(ps[i] * sg.Tensor(np.array(g, dtype=np.float64))).sum() for i, g in sorted(e[1].items()) if ps[i].requires_grad]
+            terms = [(ps[i] * sg.Tensor(np.array(g, dtype=np.float64).reshape(ps[i].shape))).sum() for i, g in sorted(e[1].items()) if ps[i].requires_grad]
             if terms:
                 loss = terms[0]
                 for t in terms[1:]:
@@ -150,7 +163,7 @@ def impl(c):
     def observe(e, ps, ids):
         if e == 'ctor':
             out.append('ok')
-            out.append(show_floats(np.concatenate([p.data for p in ps])))
+            out.append(show_floats(np.concatenate([p.data.ravel() for p in ps])))
             return
         n = 1
         if e[0] == 'bw':
@@ -158,10 +171,10 @@ def impl(c):
         elif e[0] == 'rg':
             n = len(c['thetas'][e[1]])
         out.extend(['ok'] * n)
-        out.append(show_floats(np.concatenate([p.data for p in ps])))
-        out.append(','.join('-' if p._grad is None else str(fbits(v)) for p in ps for v in (p._grad if p._grad is not None else [None] * p.data.size)) if True else '')
+        out.append(show_floats(np.concatenate([p.data.ravel() for p in ps])))
+        out.append(','.join('-' if p._grad is None else str(fbits(v)) for p in ps for v in (p._grad.ravel() if p._grad is not None else [None] * p.data.size)) if True else '')
         if [id(p.data) for p in ps] != ids: flags['inplace'] = False
-        if any(p.data.dtype != np.float64 or p.data.shape != (len(t),) for p, t in zip(ps, c['thetas'])): flags['dtype'] = False
+        if any(p.data.dtype != np.float64 or p.data.size != len(t) for p, t in zip(ps, c['thetas'])): flags['dtype'] = False
     r = outcome(lambda: _run(c, observe))
     c['_flags'] = flags
     if r == 'rejected':
@@ -263,7 +276,7 @@ def oracle(c):
     flags = {'inplace': True, 'dtype': True}
     def observe(e, ps, ids):
         if e == 'ctor': return
-        seen.append([float(v) for p in ps for v in p.data])
+        seen.append([float(v) for p in ps for v in p.data.ravel()])
         if [id(p.data) for p in ps] != ids: flags['inplace'] = False
         if any(p.data.dtype != np.float64 for p in ps): flags['dtype'] = False
     r = outcome(lambda: _run(c, observe))
@@ -287,7 +300,7 @@ def oracle(c):
 
 
 def _strip(c, nev=None):
-    return {'opt': c['opt'], 'hp': c['hp'], 'thetas': c['thetas'], 'rgs': c['rgs'], 'evs': c['evs'][:nev] if nev else c['evs']}
+    return {'opt': c['opt'], 'hp': c['hp'], 'thetas': c['thetas'], 'rgs': c['rgs'], 'evs': c['evs'][:nev] if nev else c['evs'], 'seed_lay': c.get('seed_lay', 0)}
 
 
 def search(rng, tier):
